@@ -243,7 +243,7 @@ def tlc(module, cfg, env_extra=None, workers=1, timeout_s=3600, extra=None, heap
     return res
 
 
-_BAD_RE = re.compile(r'<<"(C\d+|CONF)",\s*"([^"]+)",\s*(\d+)>>')
+_BAD_RE = re.compile(r'<<\s*"(C\d+|CONF)",\s*"([^"]+)",\s*(\d+)\s*>>')
 
 
 def parse_bad(out):
